@@ -43,3 +43,39 @@ Print Assumptions any_documented_rendering_reads_back_as_its_tree.
 Theorem documented_renderings_include_the_canonical_ones : forall es t, rfile es t -> ConfPrint2.rfile2 es t.
 Proof. exact ConfPrint2.rfile_rfile2. Qed.
 Print Assumptions documented_renderings_include_the_canonical_ones.
+
+(* "Typed settings deliver the value written (booleans by keyword, integers, intervals and volumes as the sum of their unit
+   components), and an unparsable typed value is rejected".  ConfMerge.typed is the conversion the live-tree model applies
+   (sub-type 1 boolean, 2 integer, 4 interval, otherwise volume); all arithmetic is modulo 2^32 as in the C code. *)
+Require TypedSpec AddrFull.
+From Coq Require Import ZArith.
+Local Open Scope N_scope.
+Theorem booleans_by_keyword : forall v,
+  snd (ConfMerge.p_bool v) = true <->
+  In v (TypedSpec.true_words ++ TypedSpec.false_words).
+Proof. exact TypedSpec.p_bool_accepts_iff. Qed.
+Print Assumptions booleans_by_keyword.
+
+Theorem interval_is_the_sum_of_its_unit_components : forall comps, Forall TypedSpec.ok_icomp comps ->
+  ConfMerge.p_interval (TypedSpec.render comps) 0 0 0 = (Z.of_N (ConfMerge.u32 (TypedSpec.isum comps)), true).
+Proof. exact TypedSpec.interval_is_sum_of_components. Qed.
+Print Assumptions interval_is_the_sum_of_its_unit_components.
+
+Theorem interval_is_accepted_exactly_when_wellformed : forall v t p c, (c <= 2)%N ->
+  (snd (ConfMerge.p_interval v t p c) = true <-> (~ Exists TypedSpec.ibad v /\ (c + TypedSpec.colons v <= 2)%N)).
+Proof. exact TypedSpec.interval_accepted_iff. Qed.
+Print Assumptions interval_is_accepted_exactly_when_wellformed.
+
+Theorem volume_is_the_sum_of_its_unit_components : forall comps, Forall TypedSpec.ok_vcomp comps ->
+  ConfMerge.p_volume (TypedSpec.render comps) 0 0 = (Z.of_N (ConfMerge.u32 (TypedSpec.vsum comps)), true).
+Proof. exact TypedSpec.volume_is_sum_of_components. Qed.
+Print Assumptions volume_is_the_sum_of_its_unit_components.
+
+Theorem volume_is_accepted_exactly_when_wellformed : forall v t p,
+  snd (ConfMerge.p_volume v t p) = true <-> ~ Exists TypedSpec.vbad v.
+Proof. exact TypedSpec.volume_accepted_iff. Qed.
+Print Assumptions volume_is_accepted_exactly_when_wellformed.
+
+Theorem integer_delivers_the_number_written : forall n, (n < 2147483648)%N -> ConfMerge.p_integer (AddrFull.dec n) = (Z.of_N n, true).
+Proof. exact TypedSpec.integer_decimal. Qed.
+Print Assumptions integer_delivers_the_number_written.
